@@ -78,6 +78,10 @@ fn check_locations(acc: &mut Acc, sub: &str, rank: u64, input: &[u8], po: &PO) {
 /// Truncation: every proper prefix of a text that parses; if the prefix does not parse, the error
 /// category must be Eof.
 fn check_truncations(acc: &mut Acc, rank: u64, text: &[u8], po: &PO) {
+    check_truncations_sub(acc, "truncation", rank, text, po)
+}
+
+fn check_truncations_sub(acc: &mut Acc, sub: &str, rank: u64, text: &[u8], po: &PO) {
     let o = po.to_lexpr();
     match guard(|| lexpr::from_slice_custom(text, o)) {
         Ok(Ok(_)) => {}
@@ -106,7 +110,7 @@ fn check_truncations(acc: &mut Acc, rank: u64, text: &[u8], po: &PO) {
                         let kind = msg.split(" at line").next().unwrap_or("").to_string();
                         let (h, pi) = (hex(text), po.index());
                         acc.violation(
-                            "truncation",
+                            sub,
                             "truncation-not-eof",
                             &format!("truncation-not-eof:{}:{}", src, kind),
                             rank,
@@ -170,7 +174,7 @@ fn check_truncation_alphabet(acc: &mut Acc, rank: u64, p: &[u8], po: &PO, ext_le
 pub fn replay(sub: &str, case: &J, acc: &mut Acc) {
     let input = unhex(case["input_hex"].as_str().unwrap_or(""));
     let po = PO::from_index(case["po"].as_u64().unwrap_or(0));
-    if sub == "truncation" || sub == "truncation-alphabet" {
+    if sub == "truncation" || sub == "truncation-alphabet" || sub == "truncation-utf8" {
         check_truncations(acc, 0, &input, &po);
         // only the recorded prefix matters, but reporting every failing prefix of the text is fine
     } else {
@@ -252,6 +256,45 @@ pub fn run(ctx: &Ctx) -> Report {
             let (t, _) = &g[(rank / no) as usize];
             acc.sample(rank, || format!("{:?}", crate::util::trunc(&show_bytes(t), 60)));
             check_truncations(acc, rank, t, &opts[(rank % no) as usize]);
+        });
+        rep.absorb(sub, accs);
+    }
+    if ctx.want("truncation-utf8") {
+        // multi-byte characters at every alignment: every sequence of 1..=3 units over characters of
+        // 1, 2, 3 and 4 UTF-8 bytes, in symbol, keyword, string, character and list context
+        let units = ["a", "é", "λ", "日", "€", "😀"];
+        let mut texts: Vec<Vec<u8>> = Vec::new();
+        let n = units.len();
+        for len in 1..=3usize {
+            for i in 0..n.pow(len as u32) {
+                let mut r = i;
+                let mut body = String::new();
+                for _ in 0..len {
+                    body.push_str(units[r % n]);
+                    r /= n;
+                }
+                let first_alpha = body.chars().next().map(|c| c.is_alphabetic()).unwrap_or(false);
+                if first_alpha {
+                    texts.push(body.clone().into_bytes());
+                    texts.push(format!("#:{}", body).into_bytes());
+                    texts.push(format!("(x {} y)", body).into_bytes());
+                    texts.push(format!("-{}", body).into_bytes());
+                }
+                texts.push(format!("\"{}\"", body).into_bytes());
+                texts.push(format!("s{}", body).into_bytes());
+                if len == 1 {
+                    texts.push(format!("#\\{}", body).into_bytes());
+                    texts.push(format!("?{}", body).into_bytes());
+                }
+            }
+        }
+        let opts: Vec<PO> = vec![PO::default_(), PO::elisp()];
+        let no = opts.len() as u64;
+        let sub = Sub::new("truncation-utf8", "every proper byte prefix of symbols, keywords, strings, characters and list elements made of 1..=3 characters of 1, 2, 3 and 4 UTF-8 bytes (a é λ 日 € 😀) — every alignment of a cut inside a multi-byte character after another multi-byte character; default and elisp; slice, reader and datum entry points; non-trivial = the prefix does not parse", &format!("{} texts x {} option sets, every prefix", texts.len(), no));
+        let accs = par_ranks(texts.len() as u64 * no, |rank, acc| {
+            let t = &texts[(rank / no) as usize];
+            acc.sample(rank, || format!("{:?}", show_bytes(t)));
+            check_truncations_sub(acc, "truncation-utf8", rank, t, &opts[(rank % no) as usize]);
         });
         rep.absorb(sub, accs);
     }
